@@ -24,7 +24,8 @@ ID = "C01"
 TECHNIQUE = "Hypothesis-generated control-structure skeletons rendered to 4 languages vs. a reference depth model; exhaustive small forests; wrap-one-level metamorphic relation"
 RULE = (
     "case = list of functions (top-level/method/arrow/function-expression) whose bodies are forests of control "
-    "structures, rendered to every language that has all the kinds used, linted with every limit 1..maxdepth+2 "
+    "structures, rendered to every language that has all the kinds used in one of three layouts (one construct per line | one "
+    "physical line per top-level item | leaf-only blocks written without a block), linted with every limit 1..maxdepth+2 "
     "(--max-depth or nesting.max_nesting_depth). Non-trivial: (>=2 functions or max depth >=3) and for some limit at "
     "least one function on each side of it. Distinct = structural hash of the skeleton (names erased) + language set."
 )
